@@ -103,7 +103,7 @@ def role_swapped(r, tokens):
 def plan(tier, seed):
     n_assign = 72 if tier == "quick" else 400
     shards = 12 if tier == "quick" else 40
-    return [{"kind": "assign", "n_assign": n_assign, "part": i, "parts": shards, "per": 40 if tier == "quick" else 40} for i in range(shards)]
+    return [{"kind": "assign", "n_assign": n_assign, "part": i, "parts": shards, "per": 40 if tier == "quick" else 80} for i in range(shards)]
 
 
 def make_env(tokens):
